@@ -221,9 +221,11 @@ def eval : Nat → Pos → Env → Expr → SS → R (Value × Env)
             | .err v p s'' => .err v p s'' | .brk v s'' => .brk v s'' | .stop w => .stop w
           | r => r
       | .sym "set", [.sym x, ve] =>
+        -- the target is the binding of `x` visible AT the `set` form (the compiler resolves it before compiling the value):
+        -- `(set x (def x 5))` assigns the outer `x`
         match eval f cur env ve s with
         | .ok (v, env1) s' =>
-          match lookupEnv env1 x with
+          match lookupEnv env x with
           | some a => .ok (v, env1) (writeBox s' a v)
           | none => .stop ("set of unknown variable " ++ x)
         | r => r
